@@ -3,16 +3,151 @@
 // Contracts for package parser, checked by /verif/govc (comment-only; compiled only under tag verif).
 package parser
 
+import (
+	"grol.io/grol/ast"
+	"grol.io/grol/token"
+)
+
+// Ghost stand-ins (never called by grol): a call through a function value looked up in one of the three parse tables
+// with key t is verified as a call of the stand-in with the same key on the same parser; govc audits that the
+// stand-in's switch is exactly the table New registers (same token types, same methods) and that nothing else
+// writes the tables.
+func (p *Parser) anyPrefixFn(t token.Type) ast.Node {
+	switch t { //nolint:exhaustive // mirrors the registrations in New
+	case token.IDENT, token.DOTDOT:
+		return p.parseIdentifier()
+	case token.INT:
+		return p.parseIntegerLiteral()
+	case token.FLOAT:
+		return p.parseFloatLiteral()
+	case token.BANG, token.MINUS, token.PLUS, token.INCR, token.DECR, token.BITNOT, token.BITXOR:
+		return p.parsePrefixExpression()
+	case token.TRUE, token.FALSE:
+		return p.parseBoolean()
+	case token.LPAREN:
+		return p.parseGroupedExpression()
+	case token.IF:
+		return p.parseIfExpression()
+	case token.FOR:
+		return p.parseForExpression()
+	case token.BREAK, token.CONTINUE:
+		return p.parseControlExpression()
+	case token.FUNC:
+		return p.parseFunctionLiteral()
+	case token.STRING:
+		return p.parseStringLiteral()
+	case token.LEN, token.FIRST, token.REST, token.PRINT, token.PRINTLN, token.LOG, token.ERROR, token.CATCH, token.QUOTE, token.UNQUOTE, token.DEL:
+		return p.parseBuiltin()
+	case token.LBRACKET:
+		return p.parseArrayLiteral()
+	case token.LBRACE:
+		return p.parseMapLiteral()
+	case token.LINECOMMENT, token.BLOCKCOMMENT:
+		return p.parseComment()
+	case token.MACRO:
+		return p.parseMacroLiteral()
+	}
+	return nil
+}
+
+func (p *Parser) anyInfixFn(t token.Type, left ast.Node) ast.Node {
+	switch t { //nolint:exhaustive // mirrors the registrations in New
+	case token.PLUS, token.MINUS, token.SLASH, token.PERCENT, token.ASTERISK, token.EQ, token.NOTEQ, token.LT, token.LTEQ, token.GT, token.GTEQ, token.LEFTSHIFT, token.RIGHTSHIFT, token.OR, token.AND, token.BITAND, token.BITOR, token.BITXOR, token.COLON, token.ASSIGN, token.DEFINE:
+		return p.parseInfixExpression(left)
+	case token.LPAREN:
+		return p.parseCallExpression(left)
+	case token.LBRACKET, token.DOT:
+		return p.parseIndexExpression(left)
+	case token.LAMBDA:
+		return p.parseLambdaExpression(left)
+	}
+	return nil
+}
+
+func (p *Parser) anyPostfixFn(t token.Type) ast.Node {
+	switch t { //nolint:exhaustive // mirrors the registrations in New
+	case token.INCR, token.DECR:
+		return p.parsePostfixExpression()
+	}
+	return nil
+}
+
+// Parser invariant (C08): lexer well formed, token tables initialised, current and look-ahead tokens present; a line
+// comment token is followed by a newline or by the end of the input (the explicit panic in parseComment is unreachable).
+//@ define lcCur(p) = implies(p.curToken.tokenType == token.LINECOMMENT, p.nextNewline || lexer.isEndTok(p.peekToken))
+//@ define lcPeek(p) = implies(p.peekToken.tokenType == token.LINECOMMENT, lexer.atLineEnd(p.l))
+//@ define wfP(p) = p != nil && p.l != nil && lexer.wf(p.l) && token.byTypeOK() && p.curToken != nil && p.peekToken != nil && lcCur(p) && lcPeek(p)
+// Every infix expression handed out by the parser carries its operator token (parseMapLiteral reads it).
+//@ define nodeOK(n) = implies(isType(n, *ast.InfixExpression), n.(*ast.InfixExpression) != nil && n.(*ast.InfixExpression).Token != nil)
+
+//@ funcs (*Parser).parseIdentifier, (*Parser).parseIntegerLiteral, (*Parser).parseFloatLiteral, (*Parser).parsePrefixExpression, (*Parser).parseBoolean, (*Parser).parseGroupedExpression, (*Parser).parseIfExpression, (*Parser).parseForExpression, (*Parser).parseControlExpression, (*Parser).parseFunctionLiteral, (*Parser).parseStringLiteral, (*Parser).parseBuiltin, (*Parser).parseArrayLiteral, (*Parser).parseMapLiteral, (*Parser).parseComment, (*Parser).parseMacroLiteral, (*Parser).parsePostfixExpression, (*Parser).parseInfixExpression, (*Parser).parseCallExpression, (*Parser).parseIndexExpression, (*Parser).parseLambdaExpression, (*Parser).parseStatement, (*Parser).parseReturnStatement, (*Parser).parseExpression, (*Parser).parseLambdaMulti
+//@   requires @C08 wfP(p)
+//@   modifies *
+//@   ensures  @C08 wfP(p)
+//@   ensures  @C08 node:: nodeOK(result)
+//@   loop * invariant @C08 wfP(p)
+//@   dyncall prefixParseFns like (*Parser).anyPrefixFn
+//@   dyncall infixParseFns like (*Parser).anyInfixFn
+//@   dyncall postfixParseFns like (*Parser).anyPostfixFn
+//@   safety C08
+//@   property C08
+
+//@ funcs (*Parser).parseBlockStatement, (*Parser).parseFunctionParameters, (*Parser).parseExpressionList, (*Parser).ParseProgram, (*Parser).expectPeek, (*Parser).peekError
+//@   requires @C08 wfP(p)
+//@   modifies *
+//@   ensures  @C08 wfP(p)
+//@   loop * invariant @C08 wfP(p)
+//@   safety C08
+//@   property C08
+
+//@ funcs (*Parser).anyPrefixFn, (*Parser).anyInfixFn, (*Parser).anyPostfixFn
+//@   requires @C08 wfP(p)
+//@   requires @C08 key:: t == p.curToken.tokenType
+//@   modifies *
+//@   ensures  @C08 wfP(p)
+//@   ensures  @C08 node:: nodeOK(result)
+//@   safety C08
+//@   property C08
+
+// nextToken also runs before the first two tokens are read (New).
+//@ func (*Parser).nextToken
+//@   requires @C08 p != nil && p.l != nil && lexer.wf(p.l) && token.byTypeOK()
+//@   requires @C08 implies(p.peekToken != nil, lcPeek(p))
+//@   modifies p.prevToken, p.curToken, p.peekToken, p.prevPos, p.prevNewline, p.nextNewline, lexer.Lexer.pos, lexer.Lexer.hadWhitespace, lexer.Lexer.hadNewline, lexer.Lexer.lastNewLine, lexer.Lexer.lineNumber, map token.interning
+//@   ensures  @C08 p.l == old(p.l) && lexer.wf(p.l) && token.byTypeOK() && p.peekToken != nil && p.curToken == old(p.peekToken) && p.prevToken == old(p.curToken)
+//@   ensures  @C08 implies(p.curToken != nil, lcCur(p)) && lcPeek(p)
+//@   safety C08
+//@   property C08
+
+//@ also (*Parser).parseComment
+//@   requires @C08 p.curToken.tokenType == token.LINECOMMENT || p.curToken.tokenType == token.BLOCKCOMMENT
+//@ also (*Parser).parseExpression
+//@   loop 1 invariant @C08 nodeOK(leftExp)
+//@ also (*Parser).parseExpressionList
+//@   requires @C08 end == token.RPAREN || end == token.RBRACKET
+//@ also (*Parser).expectPeek
+//@   requires @C08 token.byTypeHas(t)
+//@   ensures  @C08 implies(result, p.prevToken != nil)
+//@ also (*Parser).peekError
+//@   requires @C08 token.byTypeHas(t)
+//@ also (*Parser).parseMapLiteral
+//@   loop 1 invariant @C08 mapRes != nil && mapRes.Pairs != nil
+
+//@ func New
+//@   requires @C08 lexer.wf(l) && token.byTypeOK()
+//@   modifies *
+//@   ensures  @C08 wfP(result)
+//@   safety C08
+//@   property C08
+
 // Error rendering never indexes outside the input and never asks for a negative repetition.
 //@ func (*Parser).ErrorLine
 //@   requires p != nil && p.l != nil && lexer.wf(p.l)
-//@   modifies *
 //@   property C08
 
 // Lambda parameter lists may contain nil entries (a parameter that failed to parse, its error already recorded):
 // checking them must not dereference nil.
 //@ func okParamList
-//@   modifies heap
 //@   loop 1 invariant -1 <= rangeindex && rangeindex < len(nodes)
 //@   loop 1 invariant forall(0, rangeindex + 1, func(k int) bool { return nodes[k] != nil })
 //@   property C08
